@@ -2,13 +2,15 @@
 
 PART A (equivalence).  A small subprocess grammar (xv/c03_gen.py) derives command chains: 1-3 segments joined by
 `&&` `||` `and` `or` `;`, each segment = command word + arguments drawn from the word alphabet of the statement
-(plain words, quoted strings, `$V`, `${'V'}`, `@(ev)`, `$(..)`, `@$(..)`, redirects, a pipe, trailing `&`, `$V=1`
-prefix).  Every chain is placed in every statement POSITION (top level, after/before `;`, body of
+(plain words, quoted strings incl. triple-quoted strings of both kinds that span two physical lines, `$V`, `${'V'}`,
+`@(ev)`, `$(..)`, `@$(..)`, redirects, a pipe, trailing `&`, `$V=1` prefix).  Every chain is placed in every statement POSITION (top level, after/before `;`, body of
 if/for/while/with/try/def at depth 1-3 with space/tab indents, backslash continuation at every word boundary,
 one-line compound statements, and after a PRELUDE: earlier statements that bind every identifier of the line only
 in a scope that has ended - parameters of another def / async def / lambda, names local to a function or class body,
 comprehension variables, an `except ... as` name after its handler, a deleted name - so the names are still unbound
-at the line).  From the SAME derivation the generator renders the bare program and its explicit
+at the line;
+layout: a trailing `# comment`, an empty line in front; LINE ENDS: the whole program, bare and explicit alike, with
+CRLF (thorough: also lone CR) line ends, as a file saved with that convention contains them).  From the SAME derivation the generator renders the bare program and its explicit
 twin (each segment wrapped in `![...]` by the generator; subproc_toks is never used to build the twin).  All
 derivations within the stated deviation bounds are enumerated (never sampled).
   Oracle (from the statement "behaves exactly as if the user had wrapped each segment in ![...] by hand"):
